@@ -3,6 +3,8 @@ package ref
 import (
 	"encoding/binary"
 	"fmt"
+	"strings"
+	"unicode/utf8"
 
 	"verif/harness/model"
 )
@@ -104,6 +106,16 @@ type rd struct {
 	// consumed, or a property identifier announces a value), so that running
 	// out of bytes even with none left means the frame ends inside it.
 	begun bool
+	// ped collects values that parse but that the specification calls a
+	// Protocol Error or otherwise forbids (Receive Maximum 0, a topic name
+	// with wildcards, ill-formed UTF-8, ...): a decoder may or may not reject
+	// them, so frames carrying one are outside the valid-frame language for
+	// the purpose of "must be accepted" claims made from raw bytes.
+	ped []string
+}
+
+func (r *rd) pedantic(format string, a ...interface{}) {
+	r.ped = append(r.ped, fmt.Sprintf(format, a...))
 }
 
 func (r *rd) fail(format string, a ...interface{}) {
@@ -168,7 +180,13 @@ func (r *rd) bin(what string) []byte {
 	r.i += n
 	return v
 }
-func (r *rd) str(what string) string { return string(r.bin(what)) }
+func (r *rd) str(what string) string {
+	v := string(r.bin(what))
+	if !utf8.ValidString(v) || strings.ContainsRune(v, 0) {
+		r.pedantic("%s is not a well-formed UTF-8 string without U+0000", what)
+	}
+	return v
+}
 
 // vbi reads a variable byte integer; it must be minimal when strict.
 func (r *rd) vbi(what string) uint32 {
@@ -284,6 +302,14 @@ func (r *rd) props(m *model.Packet, scope int) {
 		r.begun = false
 		if r.err != nil {
 			return
+		}
+		switch {
+		case (id == 0x21 || id == 0x23) && v16 == 0, id == 0x27 && v32 == 0, id == 0x0b && v32 == 0:
+			r.pedantic("%s with the value 0 is a Protocol Error", d.name)
+		case id == 0x24 && vb > 1:
+			r.pedantic("Maximum QoS %d", vb)
+		case (id == 0x08) && strings.ContainsAny(vs, "#+"):
+			r.pedantic("response topic with wildcard characters")
 		}
 		if r.i > end {
 			r.fail("property 0x%02x overruns the property length", id)
@@ -402,6 +428,92 @@ func DecodeStrict(frame []byte) (model.Packet, error) {
 func RejectClass(frame []byte) string {
 	_, cls, _ := decodeStrict(frame)
 	return cls
+}
+
+// DecodePedantic is DecodeStrict plus a list of remarks about values that
+// parse but that MQTT v5.0 forbids or calls a Protocol Error; a frame with
+// remarks is structurally readable, yet a decoder that rejects it is not
+// wrong, so "must be accepted" is only claimed for frames without remarks.
+func DecodePedantic(frame []byte) (model.Packet, []string, error) {
+	pedNotes = nil
+	m, _, err := decodeStrict(frame)
+	if err != nil {
+		return m, nil, err
+	}
+	notes := pedNotes
+	notes = append(notes, modelRemarks(&m)...)
+	return m, notes, nil
+}
+
+// pedNotes carries the remarks of the last decodeStrict0 call (single goroutine).
+var pedNotes []string
+
+// modelRemarks: what the specification forbids at the level of whole packets.
+func modelRemarks(m *model.Packet) []string {
+	var out []string
+	add := func(f string, a ...interface{}) { out = append(out, fmt.Sprintf(f, a...)) }
+	needID := func() {
+		if m.PacketID == 0 {
+			add("packet identifier 0")
+		}
+	}
+	switch m.Type {
+	case model.CONNECT:
+		if m.AuthMethod == "" && len(m.AuthData) > 0 {
+			add("authentication data without method")
+		}
+		if w := m.Will; w != nil {
+			if w.Topic == "" || strings.ContainsAny(w.Topic, "#+") {
+				add("will topic empty or with wildcard characters")
+			}
+			if strings.ContainsAny(w.ResponseTopic, "#+") {
+				add("will response topic with wildcard characters")
+			}
+			if w.PayloadFormat && !utf8.Valid(w.Payload) {
+				add("will payload format says UTF-8, payload is not")
+			}
+		}
+	case model.CONNACK, model.AUTH:
+		if m.AuthMethod == "" && len(m.AuthData) > 0 {
+			add("authentication data without method")
+		}
+	case model.PUBLISH:
+		if m.QoS > 0 {
+			needID()
+		}
+		if m.QoS == 0 && m.Dup {
+			add("DUP set at QoS 0")
+		}
+		if m.TopicName == "" && m.TopicAlias == 0 {
+			add("neither topic name nor topic alias")
+		}
+		if strings.ContainsAny(m.TopicName, "#+") {
+			add("topic name with wildcard characters")
+		}
+		if m.PayloadFormat && !utf8.Valid(m.Payload) {
+			add("payload format says UTF-8, payload is not")
+		}
+	case model.PUBACK, model.PUBREC, model.PUBREL, model.PUBCOMP, model.SUBACK, model.UNSUBACK:
+		needID()
+	case model.SUBSCRIBE:
+		needID()
+		for _, f := range m.Filters {
+			if f.Filter == "" {
+				add("empty topic filter")
+			}
+			if strings.HasPrefix(f.Filter, "$share/") && f.Opts&4 != 0 {
+				add("No Local on a shared subscription")
+			}
+		}
+	case model.UNSUBSCRIBE:
+		needID()
+		for _, f := range m.UnsubFilters {
+			if f == "" {
+				add("empty topic filter")
+			}
+		}
+	}
+	return out
 }
 
 func decodeStrict(frame []byte) (model.Packet, string, error) {
@@ -579,6 +691,7 @@ func decodeStrict0(frame []byte) (m model.Packet, cls string, err error) {
 	if r.err == nil && r.i != len(r.b) {
 		r.fail("%d bytes left over after the packet", len(r.b)-r.i)
 	}
+	pedNotes = r.ped
 	if r.err != nil {
 		return m, r.cls, fmt.Errorf("%s: %v", model.TypeNames[typ], r.err)
 	}
